@@ -94,6 +94,11 @@ for _sel in ("keys", "values", "entries"):
          "in " + _sel + " y>>", 2)
     _add("lc product " + _sel, "[[a, b] for a in " + _sel + " x for b in " +
          _sel + " y]", 2)
+# a host exception deep inside calls without arguments (exhausted host stack)
+_add("recursion without arguments", "do def down() do x; down() end; "
+     "down() end", 1)
+_add("recursion with argument", "do def down(n) do x; down(n + 1) end; "
+     "down(0) end", 1)
 _add("while later", "do def c = TRUE; def n = 0; while c do n += 1; c = x; "
      "if n > 3 then break; end; n end", 1)
 _add("assign undefined", "do never_defined_q = x end", 1)
